@@ -41,6 +41,7 @@ type Profile struct {
 	NegMapProbe  bool   // templates may reference a symbol mapped only before the last move (C05)
 	RelWeight    int    // weight of relative targets against 6 for named ones (default 3)
 	EndWeight    int    // weight of each kind of end node against 6 for menu nodes (default 1)
+	CatchLoad    bool   // the catch node may LOAD a symbol
 	ManySyms     bool   // up to 28 external symbols, nodes that load up to 20 of them
 	Unicode      bool   // multi-byte UTF-8 in labels, translations, static template text and padded values
 	StaticSyms   bool   // some external symbols are static-load symbols with per-language entries
@@ -567,6 +568,7 @@ func Generate(t *tape.Tape, p Profile) *App {
 		if shape < 0 {
 			shape = t.Int(4)
 		}
+		catchLoad := p.CatchLoad && len(a.Ext) > 0 && t.Chance(1, 4)
 		c := &Node{Name: "_catch", Kind: KCatch, Tpl: map[string]string{"": "@_catch|oops$"}}
 		switch shape {
 		case 0:
@@ -577,6 +579,13 @@ func Generate(t *tape.Tape, p Profile) *App {
 			c.Code = []Inst{{Op: HALT}, {Op: MOVE, A: "^"}}
 		default:
 			c.Code = []Inst{{Op: HALT}, {Op: INCMP, A: "_", B: "*"}}
+		}
+		if catchLoad {
+			// the catch node itself loads a symbol (which may fail like any other)
+			e := a.Ext[t.Int(len(a.Ext))]
+			if e.Size > 0 {
+				c.Code = append([]Inst{{Op: LOAD, A: e.Name, N: e.Size}}, c.Code...)
+			}
 		}
 		for _, lg := range a.Langs {
 			if t.Chance(1, 2) {
